@@ -1,1 +1,260 @@
-/-! Property theorems for C03 (none yet). -/
+import MirVerif.Model.Thunk
+import MirVerif.Lemmas.Thunk
+import MirVerif.Lemmas.ThunkInv
+/-! # C03 — behaviour is independent of the execution interface: the redirection bookkeeping
+
+What is proved here (for the model in `Model/Thunk.lean`, tied to the C code on every run by
+`checks/c03.py`: thunk bytes, `_MIR_get_thunk_addr`, executed thunks, and API histories replayed on
+the real library):
+
+* `redirect_target`   — executing the bytes `_MIR_redirect_thunk (a, to)` writes at `a` arrives at `to`,
+  for ALL `a to : BitVec 64` (short `E9 rel32` form and long `movabs/jmp *r11` form);
+  `short_boundary` pins the switch between the forms at `disp = 2^31-1 | 2^31` and `-2^31 | -2^31-1`;
+* `get_after_redirect` — `_MIR_get_thunk_addr` reads back the last `to`;
+* `addr_stable`       — for every history of load / link / set-interface / first call / generation
+  events and every allocator behaviour, a public address that exists never changes;
+  `addr_is_first_thunk`: it is the thunk allocated by the first load that mentions the function;
+* `thunk_decodes`     — in every reachable state the bytes at the public address decode to the last
+  redirection target (so "callable" reduces to "the last target is callable");
+* `target_progress`   — after `MIR_gen f` the public address leads to `f->machine_code`;
+  `lazy_first_call_progress`, `bb_first_call_progress` — the same for the first call through a lazy
+  wrapper / bb wrapper; `machine_code_once` — machine code is generated once and never moves;
+  `code_target_is_machine_code` — whenever the thunk is in state `code`, it leads to the machine code.
+
+NOT proved (executed and compared only): the machine code of wrappers, shims, bb thunks/stubs and of
+the generated functions themselves; that `_MIR_publish_code`/`_MIR_change_code` write what they are
+given (C17); that results coincide between interfaces (tested on generated multi-module programs). -/
+namespace MirVerif.Thunk
+
+/-! ## the thunk codec -/
+
+/-- **redirect_target**: executing the bytes `_MIR_redirect_thunk (a, to)` writes at `a` arrives at
+`to` — both encodings, every pair of addresses. -/
+theorem redirect_target (a to : W64) : thunkTarget a (redirect a to) = some to :=
+  thunkTarget_redirect a to
+
+example : thunkTarget 0x7f0000001000#64 (redirect 0x7f0000001000#64 0x7f0000001064#64)
+    = some 0x7f0000001064#64 ∧ shortP 0x7f0000001000#64 0x7f0000001064#64 = true := by decide
+example : thunkTarget 0x7f0000001000#64 (redirect 0x7f0000001000#64 0x55d0c0ffee00#64)
+    = some 0x55d0c0ffee00#64 ∧ shortP 0x7f0000001000#64 0x55d0c0ffee00#64 = false := by decide
+
+/-- The short form is chosen exactly for `INT32_MIN ≤ to - (a+5) ≤ INT32_MAX`; the four boundary
+displacements, at every thunk address (including addresses where `a + 5 + d` wraps). -/
+theorem short_boundary (a : W64) :
+    shortP a (a + 5 + 2147483647#64) = true ∧ shortP a (a + 5 + 2147483648#64) = false ∧
+    shortP a (a + 5 + 0xffffffff80000000#64) = true ∧ shortP a (a + 5 + 0xffffffff7fffffff#64) = false := by
+  simp only [shortP, disp_add]
+  decide
+
+/-- **get_after_redirect**: `_MIR_get_thunk_addr` after `_MIR_redirect_thunk` returns the address
+given to the latter. -/
+theorem get_after_redirect (a to : W64) : getThunkAddr (redirect a to) = to :=
+  getThunkAddr_redirect a to
+
+/-- a redirected thunk always occupies exactly the 13 bytes `_MIR_get_thunk` published -/
+theorem redirect_length (a to : W64) : (redirect a to).length = 13 := length_redirect a to
+
+example : getThunkAddr (redirect 0x1000#64 0xfffffffffffff000#64) = 0xfffffffffffff000#64 := by decide
+
+/-! ## public addresses -/
+
+/-- **addr_stable**: once a function has a public address, no history of events (loads — including
+re-loading the same module —, links under any interface, direct interface switches, first calls,
+eager / lazy / bb generation, with any allocator answers) changes it. -/
+theorem addr_stable (u : W64) (s : State) (h : List Event) (f : Nat) (a : W64)
+    (ha : addr s f = some a) : addr (run u s h) f = some a := by
+  induction h generalizing s with
+  | nil => exact ha
+  | cons e h ih =>
+    rw [run_cons]
+    apply ih
+    exact stepF_addr u e f (s f) a ha
+
+/-- the form asked for: the address after a prefix of the history is the address at the end -/
+theorem addr_stable_history (u : W64) (h1 h2 : List Event) (f : Nat) (a : W64)
+    (ha : addr (run u init h1) f = some a) : addr (run u init (h1 ++ h2)) f = some a := by
+  rw [run_append]; exact addr_stable u _ h2 f a ha
+
+example : addr (run 0x400000#64 init
+    [.load [0, 1] (fun f => 0x7f0000001000#64 + BitVec.ofNat 64 (16 * f)),
+     .link .lazy (fun f => 0x7f0000002000#64 + BitVec.ofNat 64 (64 * f))]) 1 = some 0x7f0000001010#64 ∧
+  addr (run 0x400000#64 init
+    ([.load [0, 1] (fun f => 0x7f0000001000#64 + BitVec.ofNat 64 (16 * f)),
+      .link .lazy (fun f => 0x7f0000002000#64 + BitVec.ofNat 64 (64 * f))] ++
+     [.firstCall 1 0x7f0000003000#64, .load [1] (fun _ => 0x7f0000009000#64),
+      .link .interp (fun _ => 0x7f0000004000#64), .gen 1 0x7f0000005000#64])) 1
+    = some 0x7f0000001010#64 := by decide
+
+/-- The public address is the thunk `_MIR_get_thunk` returned when the function was first loaded
+(`item->addr == NULL`); later loads do not allocate. -/
+theorem addr_is_first_thunk (u : W64) (h : List Event) (f : Nat) (a : W64)
+    (ha : addr (run u init h) f = some a) :
+    ∃ h1 fs t h2, h = h1 ++ .load fs t :: h2 ∧ f ∈ fs ∧ addr (run u init h1) f = none ∧ t f = a := by
+  suffices H : ∀ (h : List Event) (s : State), addr s f = none → addr (run u s h) f = some a →
+      ∃ h1 fs t h2, h = h1 ++ .load fs t :: h2 ∧ f ∈ fs ∧ addr (run u s h1) f = none ∧ t f = a from
+    H h init rfl ha
+  intro h
+  clear ha
+  induction h with
+  | nil => intro s hn hs; simp [run, hn] at hs
+  | cons e h ih =>
+    intro s hn hs
+    rw [run_cons] at hs
+    cases hp : addr (step u s e) f with
+    | none =>
+      obtain ⟨h1, fs, t, h2, rfl, hm, hn1, ht⟩ := ih _ hp hs
+      exact ⟨e :: h1, fs, t, h2, rfl, hm, by rw [run_cons]; exact hn1, ht⟩
+    | some b =>
+      have hb := addr_stable u _ h f b hp
+      have hab : b = a := by rw [hs] at hb; exact (Option.some.inj hb).symm
+      have hne : (stepF u e f (s f)).addr ≠ (s f).addr := by
+        have h1 : (stepF u e f (s f)).addr = some b := hp
+        have h2 : (s f).addr = none := hn
+        rw [h1, h2]; simp
+      obtain ⟨fs, t, rfl, hm, hn'⟩ := stepF_addr_none u e f _ hne
+      refine ⟨[], fs, t, h, rfl, hm, hn, ?_⟩
+      have h1 : (stepF u (.load fs t) f (s f)).addr = some b := hp
+      simp only [stepF, hm, if_true] at h1
+      rw [load_addr_of_none _ _ _ hn'] at h1
+      rw [← hab]; exact Option.some.inj h1
+
+/-! ## the thunk always leads to the last redirection target -/
+
+/-- **thunk_decodes**: in every reachable state, calling the public address of a loaded function
+arrives at the last redirection target, and `_MIR_get_thunk_addr` reports it. -/
+theorem thunk_decodes (u : W64) (h : List Event) (f : Nat) (a : W64)
+    (ha : addr (run u init h) f = some a) :
+    target (run u init h) f = some (run u init h f).to ∧
+    getThunkAddr (run u init h f).bytes = (run u init h f).to := by
+  have hc := consistent_run u init h (fun f a ha => by simp [init] at ha) f a ha
+  refine ⟨?_, hc.2.1⟩
+  unfold target
+  unfold addr at ha
+  rw [ha]
+  exact hc.1
+
+/-- **code_target_is_machine_code**: in every reachable state, a function whose thunk was last
+redirected to generated code is entered at `func->machine_code`. -/
+theorem code_target_is_machine_code (u : W64) (h : List Event) (f : Nat) (a : W64)
+    (ha : addr (run u init h) f = some a) (hk : (run u init h f).kind = .code) :
+    target (run u init h) f = (run u init h f).machineCode := by
+  have hc := consistent_run u init h (fun f a ha => by simp [init] at ha) f a ha
+  rw [(thunk_decodes u h f a ha).1, hc.2.2.2 hk]
+
+example : target (run 0x400000#64 init
+    [.load [0] (fun _ => 0x7f0000001000#64), .link .gen (fun _ => 0x7f00c0000000#64)]) 0
+    = some 0x7f00c0000000#64 ∧
+    (run 0x400000#64 init
+    [.load [0] (fun _ => 0x7f0000001000#64), .link .gen (fun _ => 0x7f00c0000000#64)] 0).kind = .code := by
+  decide
+
+/-! ## progress -/
+
+/-- **target_progress**: after `MIR_gen f` (eager interface, or called directly) the public address
+of a loaded `f` leads to `f`'s machine code, which exists. -/
+theorem target_progress (u : W64) (s : State) (f : Nat) (pub a : W64) (ha : addr s f = some a) :
+    target (step u s (.gen f pub)) f = (step u s (.gen f pub) f).machineCode ∧
+    (step u s (.gen f pub) f).machineCode.isSome = true := by
+  unfold addr at ha
+  simp only [target, step, stepF, if_true, genCode_addr, ha]
+  unfold FuncSt.genCode
+  split
+  · rename_i c hc
+    simp [FuncSt.redirectTo, ha, redirect_target, hc]
+  · simp [FuncSt.redirectTo, ha, redirect_target]
+
+/-- the first call through a lazy wrapper generates the code and retargets the public address to it -/
+theorem lazy_first_call_progress (u : W64) (s : State) (f : Nat) (pub a : W64)
+    (ha : addr s f = some a) (hk : (s f).kind = .lazyWrapper) :
+    target (step u s (.firstCall f pub)) f = (step u s (.firstCall f pub) f).machineCode ∧
+    (step u s (.firstCall f pub) f).machineCode.isSome = true ∧
+    (step u s (.firstCall f pub) f).kind = .code := by
+  have h := target_progress u s f pub a ha
+  have e : step u s (.firstCall f pub) f = step u s (.gen f pub) f := by
+    simp [step, stepF, hk]
+  have e2 : target (step u s (.firstCall f pub)) f = target (step u s (.gen f pub)) f := by
+    simp [target, e]
+  rw [e2, e]
+  refine ⟨h.1, h.2, ?_⟩
+  unfold addr at ha
+  simp only [step, stepF, if_true]
+  unfold FuncSt.genCode
+  split <;> simp [FuncSt.redirectTo, ha]
+
+/-- the first call through a bb wrapper retargets the public address to the first bb thunk;
+no whole-function machine code appears -/
+theorem bb_first_call_progress (u : W64) (s : State) (f : Nat) (pub a : W64)
+    (ha : addr s f = some a) (hk : (s f).kind = .bbWrapper) :
+    target (step u s (.firstCall f pub)) f = some pub ∧
+    (step u s (.firstCall f pub) f).kind = .bbThunk ∧
+    (step u s (.firstCall f pub) f).machineCode = (s f).machineCode := by
+  unfold addr at ha
+  simp [target, step, stepF, hk, FuncSt.genBB, FuncSt.redirectTo, ha, redirect_target]
+
+/-- a second call changes nothing: only the first call through a wrapper has an effect -/
+theorem second_call_no_effect (u : W64) (s : State) (f : Nat) (p p' a : W64)
+    (ha : addr s f = some a) :
+    step u (step u s (.firstCall f p)) (.firstCall f p') = step u s (.firstCall f p) := by
+  unfold addr at ha
+  funext g
+  by_cases hg : g = f
+  · subst hg
+    have h1 : (stepF u (.firstCall g p) g (s g)).kind ≠ .lazyWrapper ∧
+        (stepF u (.firstCall g p) g (s g)).kind ≠ .bbWrapper := by
+      simp only [stepF, if_true]
+      cases hk : (s g).kind <;> simp [hk, genCode_kind _ _ _ ha, genBB_kind _ _ _ ha]
+    simp only [step]
+    generalize stepF u (.firstCall g p) g (s g) = x at h1 ⊢
+    simp only [stepF, if_true]
+    cases hx : x.kind <;> simp_all
+  · simp [step, stepF, hg]
+
+/-- **machine_code_once**: generated code never moves and is never regenerated (so the direct
+calls `target_change_to_direct_calls` patches in stay valid). -/
+theorem machine_code_once (u : W64) (s : State) (h : List Event) (f : Nat) (c : W64)
+    (hc : (s f).machineCode = some c) : (run u s h f).machineCode = some c := by
+  induction h generalizing s with
+  | nil => exact hc
+  | cons e h ih =>
+    rw [run_cons]
+    apply ih
+    have hg : ∀ p, ((s f).genCode p).machineCode = some c := by
+      intro p; simp [FuncSt.genCode, hc, redirectTo_machineCode]
+    have hb : ∀ p, ((s f).genBB p).machineCode = some c := by
+      intro p; simp [FuncSt.genBB, hc, redirectTo_machineCode]
+    have hi : ∀ i p, ((s f).setIface i p).machineCode = some c := by
+      intro i p; cases i <;> simp [FuncSt.setIface, redirectTo_machineCode, hc, hg]
+    cases e with
+    | load fs t => simp only [step, stepF]; split
+                   · simp only [FuncSt.load]
+                     split <;> simp [redirectTo_machineCode, hc]
+                   · exact hc
+    | link i p => simp only [step, stepF]; split
+                  · simp [hi]
+                  · exact hc
+    | setIface i g p => simp only [step, stepF]; split
+                        · exact hi i p
+                        · exact hc
+    | firstCall g p => simp only [step, stepF]; split
+                       · split
+                         · exact hg p
+                         · exact hb p
+                         · exact hc
+                       · exact hc
+    | gen g p => simp only [step, stepF]; split
+                 · exact hg p
+                 · exact hc
+    | bbgen g p => simp only [step, stepF]; split
+                   · exact hb p
+                   · exact hc
+
+example : (run 0x400000#64 init
+    [.load [0] (fun _ => 0x7f0000001000#64), .link .lazy (fun _ => 0x7f0000002000#64),
+     .firstCall 0 0x7f0000003000#64, .setIface .interp 0 0x7f0000004000#64,
+     .setIface .gen 0 0x7f0000005000#64] 0).machineCode = some 0x7f0000003000#64 ∧
+  target (run 0x400000#64 init
+    [.load [0] (fun _ => 0x7f0000001000#64), .link .lazy (fun _ => 0x7f0000002000#64),
+     .firstCall 0 0x7f0000003000#64, .setIface .interp 0 0x7f0000004000#64,
+     .setIface .gen 0 0x7f0000005000#64]) 0 = some 0x7f0000003000#64 := by decide
+
+end MirVerif.Thunk
